@@ -91,6 +91,9 @@ def stress_inputs(tier):
     s.append(dict(label="split_files", strategy="client", schema=split_schema(),
                   queries={"q2.graphql": FAN_QUERIES.split("fragment Fa")[0], "sub/frags.gql": "fragment Fa" + FAN_QUERIES.split("fragment Fa", 1)[1], "sub/deeper/more.graphqls": "query Extra { user { id } }\n"},
                   options={"include_comments": "stable"}))
+    enum_frag_schema = "\n".join(f"enum En{i} {{ A B }}" for i in range(6)) + "\ntype Item { id: ID! " + " ".join(f"e{i}: En{i}" for i in range(6)) + " }\ntype Query { item: Item items: [Item!]! }\n"
+    enum_frag_queries = "query GetItem { item { ...Fa ...Fb ...Fc } items { ...Fd ...Fe id e5 } }\n" + "\n".join(f"fragment F{c} on Item {{ e{i} }}" for i, c in enumerate("abcde")) + "\n"
+    s.append(dict(label="enums_in_mixin_fragments_pruned", strategy="client", schema=enum_frag_schema, queries=enum_frag_queries, options={"include_all_enums": False, "include_all_inputs": False}))
     parts = split_schema()
     same = {"types.graphql": parts["b_types.graphql"], "a/types.graphql": parts["a/interfaces.graphqls"], "b/types.graphql": parts["a/deep/unions.gql"], "b/c/types.graphql": parts["z.graphql"]}
     s.append(dict(label="same_file_names_in_subdirs", strategy="client", schema=same,
